@@ -3,7 +3,7 @@
 From Coq Require Import List ZArith Lia Bool Arith Sorting.Permutation.
 From Pico Require Import Base.Res Base.ListX Base.Mach Wire.Wire Schema.Types Schema.Scalar Schema.Gen Schema.Conv Schema.Interp Schema.Norm Ref.Ref
   Wire.VarintProofs Wire.WireProofs Wire.FixedProofs Schema.ScalarProofs Dec.Dec Dec.SafetyProofs Dec.TokenBridge Dec.TokenApp Dec.StreamLoop Dec.ReaderBridge
-  Schema.EncSpec Dec.ReaderProofs Dec.LoopInst Schema.TEnc Schema.TDec Schema.Concat Schema.Fuel.
+  Schema.EncSpec Schema.ConvProofs Dec.ReaderProofs Dec.LoopInst Schema.TEnc Schema.TDec Schema.Concat Schema.Fuel.
 Import ListNotations.
 Open Scope Z_scope.
 
@@ -480,7 +480,12 @@ Definition msg_slot_ok (s : schema) (sub : nat -> list val -> bytes -> bool) (en
   if i_repeated (field_info s f) then match v with VList l => forallb (msg_elem_ok s sub enc f j) l | _ => false end
   else msg_elem_ok s sub enc f j v.
 Definition map_slot_ok (kk vk : kind) (v : val) : bool := false.
-Definition cast_slot_ok (s : schema) (f : fdesc) (v : val) : bool := false.
+Definition cast_of (f : fdesc) : cast := match f_custom f with CTimestamp => CastTs | _ => CastDur end.
+Definition cast_opt_ok (c : cast) (x : val) : bool := match x with VOpt None => true | VOpt (Some y) => cast_elem_ok c y | _ => false end.
+Definition cast_slot_ok (s : schema) (f : fdesc) (v : val) : bool :=
+  let i := field_info s f in
+  if i_repeated i then match v with VList l => forallb (if i_pointer i then cast_opt_ok (cast_of f) else cast_elem_ok (cast_of f)) l | _ => false end
+  else if i_oneof i || i_pointer i then cast_opt_ok (cast_of f) v else cast_elem_ok (cast_of f) v.
 
 Definition slot_rt_ok (s : schema) (sub : nat -> list val -> bytes -> bool) (enc : nat -> list val -> bytes -> bytes)
            (f : fdesc) (v : val) : bool :=
@@ -656,6 +661,198 @@ Proof.
 Qed.
 End MsgFieldRT.
 
+(* ---------------------------------------------------------------- Timestamp / Duration fields *)
+Lemma tokens_field_cons k num v rest : valid_number num = true -> scalar_ok k v = true -> bytes_ok rest ->
+  exists tok, tokens (spec_field k num v ++ rest) = (match tokens rest with Some ts => Some (tok :: ts) | None => None end) /\
+              t_num tok = num /\ tok_scalar k tok = Some v.
+Proof.
+  intros Hv Hok Hr. destruct (field_token k num v rest Hv Hok Hr) as [p [n [Ep [En Et]]]].
+  eexists. split; [|split; [|exact Et]]; [|reflexivity].
+  rewrite tokens_cons by (intros E; apply app_eq_nil in E; destruct E as [E _]; exact (spec_field_nonempty k num v E)).
+  rewrite Ep. subst n. destruct (length (spec_field k num v)) eqn:El; [exfalso; destruct (spec_field k num v) eqn:E; [exact (spec_field_nonempty k num v E)|discriminate El]|].
+  rewrite <- El. rewrite (skipn_app_l (spec_field k num v) rest _ eq_refl). reflexivity.
+Qed.
+
+Lemma spec_field_len_small k num v : (k = KInt64 \/ k = KInt32) -> (length (spec_field k num v) <= 20)%nat.
+Proof.
+  intros Hk. unfold spec_field, spec_tag. rewrite app_length.
+  pose proof (varint7_length_le 10 (num * 8 + wire_of k)) as H1. fold (spec_varint (num * 8 + wire_of k)) in H1.
+  assert (H2 : (length (spec_payload k v) <= 10)%nat).
+  { destruct Hk as [-> | ->]; cbn [spec_payload]; apply (varint7_length_le 10). }
+  lia.
+Qed.
+
+Lemma sec_nanos_rt sec nanos : in_sb 64 sec = true -> in_sb 32 nanos = true ->
+  bytes_ok (spec_sec_nanos sec nanos) /\ lenb (spec_sec_nanos sec nanos) = true /\ sec_nanos_of (spec_sec_nanos sec nanos) = Some (sec, nanos).
+Proof.
+  intros Hs Hn. unfold spec_sec_nanos.
+  assert (Hb1 : bytes_ok (spec_field KInt64 1 (VInt sec))).
+  { unfold spec_field. apply bytes_ok_app; [apply spec_tag_bytes_ok; [lia|cbn; unfold VarintType; lia]|apply spec_payload_bytes_ok; exact Hs]. }
+  assert (Hb2 : bytes_ok (spec_field KInt32 2 (VInt nanos))).
+  { unfold spec_field. apply bytes_ok_app; [apply spec_tag_bytes_ok; [lia|cbn; unfold VarintType; lia]|apply spec_payload_bytes_ok; exact Hn]. }
+  pose proof (spec_field_len_small KInt64 1 (VInt sec) (or_introl eq_refl)) as L1.
+  pose proof (spec_field_len_small KInt32 2 (VInt nanos) (or_intror eq_refl)) as L2.
+  split; [|split].
+  - destruct (sec =? 0), (nanos =? 0); cbn [app]; [constructor|exact Hb2|rewrite app_nil_r; exact Hb1|apply bytes_ok_app; assumption].
+  - unfold lenb. apply Z.ltb_lt. change (2 ^ 63) with 9223372036854775808.
+    destruct (sec =? 0), (nanos =? 0); cbn [app length]; rewrite ?app_nil_r, ?app_length; lia.
+  - rewrite sec_nanos_of_fold.
+    destruct (Z.eqb_spec sec 0) as [-> |Hs0]; destruct (Z.eqb_spec nanos 0) as [-> |Hn0]; cbn [app].
+    + rewrite tokens_nil. reflexivity.
+    + destruct (tokens_field_cons KInt32 2 (VInt nanos) [] eq_refl Hn ltac:(constructor)) as [tok [Et [E1 E2]]]. rewrite app_nil_r in Et.
+      rewrite Et, tokens_nil. cbn [fold_opt fold_left]. unfold sn_h, mini_h. rewrite E1. cbn [Z.eqb Pos.eqb]. rewrite E2. reflexivity.
+    + destruct (tokens_field_cons KInt64 1 (VInt sec) [] eq_refl Hs ltac:(constructor)) as [tok [Et [E1 E2]]]. rewrite app_nil_r in *.
+      rewrite Et, tokens_nil. cbn [fold_opt fold_left]. unfold sn_h, mini_h. rewrite E1. cbn [Z.eqb Pos.eqb]. rewrite E2. reflexivity.
+    + destruct (tokens_field_cons KInt32 2 (VInt nanos) [] eq_refl Hn ltac:(constructor)) as [tok2 [Et2 [E21 E22]]]. rewrite app_nil_r in Et2.
+      destruct (tokens_field_cons KInt64 1 (VInt sec) (spec_field KInt32 2 (VInt nanos)) eq_refl Hs Hb2) as [tok1 [Et1 [E11 E12]]].
+      rewrite Et1, Et2, tokens_nil. cbn [fold_opt fold_left]. unfold sn_h, mini_h. rewrite E11. cbn [Z.eqb Pos.eqb]. rewrite E12. rewrite E21. cbn [Z.eqb Pos.eqb]. rewrite E22. reflexivity.
+Qed.
+
+Lemma in_sb_int64 z : in_sb 64 z = true <-> int64 z.
+Proof. unfold in_sb, int64. change (2 ^ (64 - 1)) with 9223372036854775808. rewrite andb_true_iff, Z.leb_le, Z.ltb_lt. tauto. Qed.
+Lemma in_sb_int32 z : in_sb 32 z = true <-> int32 z.
+Proof. unfold in_sb, int32. change (2 ^ (32 - 1)) with 2147483648. rewrite andb_true_iff, Z.leb_le, Z.ltb_lt. tauto. Qed.
+
+(* one Timestamp / Duration value: nothing (zero time) or one record that decodes to the value *)
+Lemma cast_elem_rt f num x : f_custom f = CTimestamp \/ f_custom f = CDuration -> cast_elem_ok (cast_of f) x = true ->
+  (ref_cast_elem num x = [] /\ is_zero_time x = true) \/
+  (is_zero_time x = false /\ exists payload, ref_cast_elem num x = spec_ld num payload /\ bytes_ok payload /\ lenb payload = true /\
+                             cast_value (f_custom f) payload = Some x).
+Proof.
+  intros Hc Hok. unfold cast_of in Hok. destruct Hc as [Hc|Hc]; rewrite Hc in *.
+  - destruct x as [| | | | | | |sec nsec|]; try discriminate Hok. cbn [cast_elem_ok] in Hok.
+    apply andb_true_iff in Hok. destruct Hok as [Hok H3]. apply andb_true_iff in Hok. destruct Hok as [H1 H2].
+    apply Z.leb_le in H2. apply Z.ltb_lt in H3. cbn [ref_cast_elem is_zero_time].
+    destruct (time_is_zero sec nsec) eqn:Ez; [left; auto|right]. split; [reflexivity|].
+    assert (Hn32 : in_sb 32 nsec = true) by (apply in_sb_int32; unfold int32; lia).
+    destruct (sec_nanos_rt sec nsec H1 Hn32) as [Hb [Hl Hd]].
+    exists (spec_sec_nanos sec nsec). repeat split; try assumption.
+    unfold cast_value. rewrite Hd. unfold time_unix, second.
+    replace (nsec <? 0) with false by (symmetry; apply Z.ltb_ge; lia). replace (1000000000 <=? nsec) with false by (symmetry; apply Z.leb_gt; lia). reflexivity.
+  - destruct x as [| | | | | | | |d]; try discriminate Hok. cbn [cast_elem_ok] in Hok. cbn [ref_cast_elem is_zero_time]. right. split; [reflexivity|].
+    apply in_sb_int64 in Hok. destruct (dur_split_spec d Hok) as [E [A [N [P M]]]]. unfold second.
+    assert (Hq : in_sb 64 (Z.quot d 1000000000) = true).
+    { apply in_sb_int64. unfold int64 in *. pose proof (Z.quot_rem d 1000000000 ltac:(lia)). lia. }
+    assert (Hr : in_sb 32 (Z.rem d 1000000000) = true) by (apply in_sb_int32; exact N).
+    destruct (sec_nanos_rt _ _ Hq Hr) as [Hb [Hl Hd]].
+    exists (spec_sec_nanos (Z.quot d 1000000000) (Z.rem d 1000000000)). repeat split; try assumption.
+    unfold cast_value. rewrite Hd. pose proof (dur_roundtrip d Hok) as Hrt. rewrite E in Hrt. rewrite Hrt. reflexivity.
+Qed.
+
+Section CastFieldRT.
+Variables (s : schema) (G : nat) (idx : nat) (m : mdesc).
+Hypothesis Hm : nth_error s idx = Some m.
+Hypothesis Hnd : NoDup (map fnum (mfields m)).
+Variable rr : nat -> list val -> bytes -> bytes.
+
+Definition cast_keep (e : val) : bool :=
+  match e with VOpt None => false | VOpt (Some x) => negb (is_zero_time x) | x => negb (is_zero_time x) end.
+
+Lemma cast_rt slot f fs : In (slot, f) (number_from 0 (mfields m)) ->
+  f_custom f = CTimestamp \/ f_custom f = CDuration -> valid_number (fnum f) = true ->
+  (foneof f <> None -> i_repeated (field_info s f) = false) ->
+  cast_slot_ok s f (nth slot fs (VInt 0)) = true ->
+  field_rt s G idx m (ref_slot rr) (norm_slot 0 s) (zero_slot (length s) s) fs (slot, f).
+Proof.
+  intros Hin Hc Hv Hone Hok t u Hz Hsib. cbn [fst snd] in *.
+  assert (Hvn : 0 <= fnum f) by (unfold valid_number in Hv; apply andb_true_iff in Hv; destruct Hv as [H1 _]; apply Z.leb_le in H1; lia).
+  assert (Henc : forall v, ref_slot rr f v = ref_cast_slot (fnum f) v) by (intros v; unfold ref_slot; destruct Hc as [-> | ->]; reflexivity).
+  rewrite Henc in *.
+  assert (Hk : forall payload t0 x, cast_value (f_custom f) payload = Some x ->
+             apply_known s (ref_decode G s) m slot f {| t_num := fnum f; t_wt := 2; t_pay := PBytes payload; t_raw := spec_varint (Z.of_nat (length payload)) ++ payload |} t0 =
+             Some (set_nth (clear_siblings m f slot t0) slot
+                     (if i_repeated (field_info s f) then VList (as_list (nth slot t0 (VInt 0)) ++ [if i_pointer (field_info s f) then VOpt (Some x) else x])
+                      else if i_oneof (field_info s f) || i_pointer (field_info s f) then VOpt (Some x) else x))).
+  { intros payload t0 x Hcv. unfold apply_known. destruct Hc as [Hc|Hc]; rewrite Hc in *; cbn [t_pay]; rewrite Hcv;
+      destruct (i_repeated (field_info s f)); try reflexivity; destruct (i_oneof (field_info s f) || i_pointer (field_info s f)); reflexivity. }
+  assert (Hrec : forall payload t0 r, bytes_ok payload -> lenb payload = true ->
+            apply_known s (ref_decode G s) m slot f {| t_num := fnum f; t_wt := 2; t_pay := PBytes payload; t_raw := spec_varint (Z.of_nat (length payload)) ++ payload |} t0 = Some r ->
+            bytes_ok (spec_ld (fnum f) payload) /\ ref_decode (S G) s idx (spec_ld (fnum f) payload) (t0, u) = Some (r, u)).
+  { intros payload t0 r Hbp Hlp Ha. split; [apply spec_ld_bytes_ok; assumption|].
+    pose proof (ld_token (fnum f) payload [] Hv Hbp Hlp ltac:(constructor)) as Ep. rewrite app_nil_r in Ep.
+    apply (decode_one_token s G idx m Hm Hnd slot f _ _ t0 u r Hin (tokens_single _ _ (spec_ld_nonempty _ _) Ep) eq_refl Ha). }
+  pose proof (info_oneof s f) as Hio.
+  assert (Hzs : zero_slot (length s) s f = if i_repeated (field_info s f) then VList [] else
+                  if i_oneof (field_info s f) || i_pointer (field_info s f) then VOpt None else
+                  match f_custom f with CTimestamp => VTime zero_time_sec 0 | _ => VDur 0 end).
+  { destruct (length s); cbn [zero_slot]; rewrite (info_cast s f Hc); destruct Hc as [-> | ->];
+      destruct (i_repeated (field_info s f)); try reflexivity; destruct (i_oneof (field_info s f)); try reflexivity;
+      destruct (i_pointer (field_info s f)); reflexivity. }
+  rewrite Hzs in Hz. unfold cast_slot_ok in Hok.
+  destruct (i_repeated (field_info s f)) eqn:Er.
+  - (* slices *)
+    assert (Hno : foneof f = None) by (destruct (foneof f) eqn:E; [specialize (Hone ltac:(congruence)); congruence|reflexivity]).
+    destruct (nth slot fs (VInt 0)) as [| | |l| | | | |] eqn:Ev; try discriminate Hok. cbn [ref_cast_slot].
+    assert (Hnorm : norm_slot 0 s f (VList l) = VList (filter cast_keep l)) by (unfold norm_slot; destruct Hc as [-> | ->]; reflexivity).
+    rewrite Hnorm.
+    set (ebytes := fun e : val => match e with VOpt (Some x) => ref_cast_elem (fnum f) x | VOpt None => [] | x => ref_cast_elem (fnum f) x end).
+    assert (Gl : forall l0 acc t0, forallb (if i_pointer (field_info s f) then cast_opt_ok (cast_of f) else cast_elem_ok (cast_of f)) l0 = true ->
+              nth slot t0 (VInt 0) = VList acc -> (slot < length t0)%nat ->
+              bytes_ok (flat_map ebytes l0) /\
+              ref_decode (S G) s idx (flat_map ebytes l0) (t0, u) = Some (set_nth t0 slot (VList (acc ++ filter cast_keep l0)), u)).
+    { induction l0 as [|e l0 IH]; intros acc t0 Hal Hn Hsl.
+      - split; [constructor|]. cbn [flat_map filter]. rewrite (ref_decode_nil s idx m Hm), app_nil_r, <- Hn, set_nth_same. reflexivity.
+      - cbn [flat_map forallb filter] in *. apply andb_true_iff in Hal. destruct Hal as [He Hal].
+        (* the element: written or skipped *)
+        assert (Hel : (ebytes e = [] /\ cast_keep e = false) \/
+                      (cast_keep e = true /\ exists payload x, ebytes e = spec_ld (fnum f) payload /\ bytes_ok payload /\ lenb payload = true /\
+                          cast_value (f_custom f) payload = Some x /\ (if i_pointer (field_info s f) then VOpt (Some x) else x) = e)).
+        { destruct (i_pointer (field_info s f)) eqn:Ep.
+          - unfold cast_opt_ok in He. destruct e as [| |[x|]| | | | | |]; try discriminate He; [|left; auto].
+            cbn [ebytes cast_keep]. destruct (cast_elem_rt f (fnum f) x Hc He) as [[E1 E2]|[E2 [payload [E1 [Hb [Hl Hcv]]]]]].
+            + left. rewrite E2. auto.
+            + right. rewrite E2. split; [reflexivity|]. exists payload, x. auto.
+          - assert (Hne : match e with VOpt _ => False | _ => True end) by (destruct e; try exact I; unfold cast_of in He; destruct Hc as [Hc|Hc]; rewrite Hc in He; discriminate He).
+            assert (Heb : ebytes e = ref_cast_elem (fnum f) e) by (destruct e as [| |o| | | | | |]; try reflexivity; destruct Hne).
+            assert (Hck : cast_keep e = negb (is_zero_time e)) by (destruct e as [| |o| | | | | |]; try reflexivity; destruct Hne).
+            rewrite Heb, Hck. destruct (cast_elem_rt f (fnum f) e Hc He) as [[E1 E2]|[E2 [payload [E1 [Hb [Hl Hcv]]]]]].
+            + left. rewrite E2. auto.
+            + right. rewrite E2. split; [reflexivity|]. exists payload, e. auto. }
+        destruct Hel as [[E1 E2]|[E2 [payload [x [E1 [Hbp [Hlp [Hcv Hex]]]]]]]]; rewrite E1, E2.
+        * cbn [app]. apply IH; assumption.
+        * destruct (Hrec payload t0 _ Hbp Hlp (Hk payload t0 x Hcv)) as [Hb1 Hd1]. rewrite (clear_siblings_none m f slot t0 Hno), Hn, Hex in Hd1. cbn [as_list] in Hd1.
+          destruct (IH (acc ++ [e]) (set_nth t0 slot (VList (acc ++ [e]))) Hal ltac:(apply nth_set_nth_in; exact Hsl) ltac:(rewrite set_nth_length; exact Hsl)) as [Hb2 Hd2].
+          split; [apply bytes_ok_app; assumption|].
+          rewrite (ref_decode_app (S G) s idx _ _ (t0, u) _ Hb1 Hd1), Hd2. rewrite set_nth_set_nth, <- app_assoc. reflexivity. }
+    destruct (Nat.lt_ge_cases slot (length t)) as [Hsl|Hsl]; [|exfalso; rewrite nth_overflow in Hz by exact Hsl; discriminate Hz].
+    destruct (Gl l [] t Hok Hz Hsl) as [Hb Hd]. split; [exact Hb|exact Hd].
+  - destruct (i_oneof (field_info s f) || i_pointer (field_info s f)) eqn:Ebox.
+    + (* pointer or oneof member *)
+      unfold cast_opt_ok in Hok. destruct (nth slot fs (VInt 0)) as [| |[x|]| | | | | |] eqn:Ev; try discriminate Hok; cbn [ref_cast_slot].
+      * destruct (cast_elem_rt f (fnum f) x Hc Hok) as [[E1 E2]|[E2 [payload [E1 [Hb [Hl Hcv]]]]]].
+        -- rewrite E1. split; [constructor|]. rewrite (ref_decode_nil s idx m Hm).
+           assert (Hnorm : norm_slot 0 s f (VOpt (Some x)) = VOpt None) by (unfold norm_slot; destruct Hc as [-> | ->]; rewrite E2; reflexivity).
+           rewrite Hnorm, <- Hz, set_nth_same. reflexivity.
+        -- rewrite E1.
+           assert (Hnorm : norm_slot 0 s f (VOpt (Some x)) = VOpt (Some x)) by (unfold norm_slot; destruct Hc as [-> | ->]; rewrite E2; reflexivity).
+           rewrite Hnorm. destruct (Hrec payload t _ Hb Hl (Hk payload t x Hcv)) as [Hb1 Hd1]. split; [exact Hb1|]. rewrite Hd1.
+           rewrite clear_unset; [reflexivity|]. intros sib Hsb. destruct (siblings_are_fields m f slot sib Hsb) as [q [Hq <-]].
+           apply (Hsib ltac:(cbn [ref_cast_slot]; rewrite E1; apply spec_ld_nonempty) q Hq Hsb).
+      * split; [constructor|]. rewrite (ref_decode_nil s idx m Hm).
+        assert (Hnorm : norm_slot 0 s f (VOpt None) = VOpt None) by (unfold norm_slot; destruct Hc as [-> | ->]; reflexivity).
+        rewrite Hnorm, <- Hz, set_nth_same. reflexivity.
+    + (* plain value *)
+      assert (Hno : foneof f = None).
+      { rewrite Hio in Ebox. destruct (foneof f); [discriminate Ebox|reflexivity]. }
+      assert (Hne : match nth slot fs (VInt 0) with VOpt _ | VList _ => False | _ => True end).
+      { destruct (nth slot fs (VInt 0)); try exact I; unfold cast_of in Hok; destruct Hc as [Hc|Hc]; rewrite Hc in Hok; discriminate Hok. }
+      assert (Hsl : ref_cast_slot (fnum f) (nth slot fs (VInt 0)) = ref_cast_elem (fnum f) (nth slot fs (VInt 0))).
+      { destruct (nth slot fs (VInt 0)); try reflexivity; destruct Hne. }
+      assert (Hnorm : norm_slot 0 s f (nth slot fs (VInt 0)) = nth slot fs (VInt 0)).
+      { unfold norm_slot. destruct (nth slot fs (VInt 0)); try (destruct Hne); destruct Hc as [-> | ->]; reflexivity. }
+      rewrite Hsl, Hnorm in *.
+      destruct (cast_elem_rt f (fnum f) _ Hc Hok) as [[E1 E2]|[E2 [payload [E1 [Hb [Hl Hcv]]]]]].
+      * rewrite E1. split; [constructor|]. rewrite (ref_decode_nil s idx m Hm).
+        assert (Ezero : nth slot fs (VInt 0) = match f_custom f with CTimestamp => VTime zero_time_sec 0 | _ => VDur 0 end).
+        { destruct (nth slot fs (VInt 0)) as [| | | | | | |sec nsec|d]; try discriminate E2. cbn [is_zero_time] in E2. unfold time_is_zero in E2.
+          apply andb_true_iff in E2. destruct E2 as [A B]. apply Z.eqb_eq in A. apply Z.eqb_eq in B. subst.
+          unfold cast_of in Hok. destruct Hc as [Hc|Hc]; rewrite Hc in *; [reflexivity|discriminate Hok]. }
+        rewrite Ezero, <- Hz, set_nth_same. reflexivity.
+      * rewrite E1 in *. destruct (Hrec payload t _ Hb Hl (Hk payload t _ Hcv)) as [Hb1 Hd1]. split; [exact Hb1|]. rewrite Hd1.
+        rewrite (clear_siblings_none m f slot t Hno). reflexivity.
+Qed.
+End CastFieldRT.
+
 (* ---------------------------------------------------------------- the round trip, by induction on the nesting of the value *)
 Section Top.
 Variable s : schema.
@@ -722,6 +919,22 @@ Proof.
       apply (msg_rt s G idx m Hm Hnd g Hsub Hstable Hidx ltac:(lia) j slot f fs Hin Hms Hc Ht Hv); [|exact Hok].
       intros Ho. destruct Hs as [[_ [[[k [Hk|[Hk _]]] _]|[[j' [Ht' [[Hl Hp]|[Hl Hno]]]]|[kk [vk [Ht' _]]]]]]|[[E|E] _]]; try congruence.
       split; [apply info_not_repeated, Hl|apply Hp, Ho].
+  - (* Timestamp *)
+    assert (Hcc : f_custom f = CTimestamp \/ f_custom f = CDuration) by (left; exact Hc).
+    assert (Hor : foneof f <> None -> i_repeated (field_info s f) = false).
+    { destruct Hs as [[E _]|[_ Hor]]; [congruence|exact Hor]. }
+    assert (Hok' : cast_slot_ok s f (nth slot fs (VInt 0)) = true) by (destruct (fty f); exact Hok).
+    apply (field_rt_ext s G idx m (ref_slot (ref_encode g s)) _ (norm_slot 0 s) _ (zero_slot (length s) s) _ fs (slot, f)); cbn [fst snd];
+      [reflexivity|unfold norm_slot; rewrite Hc; reflexivity|reflexivity|].
+    apply (cast_rt s G idx m Hm Hnd (ref_encode g s) slot f fs Hin Hcc Hv Hor Hok').
+  - (* Duration *)
+    assert (Hcc : f_custom f = CTimestamp \/ f_custom f = CDuration) by (right; exact Hc).
+    assert (Hor : foneof f <> None -> i_repeated (field_info s f) = false).
+    { destruct Hs as [[E _]|[_ Hor]]; [congruence|exact Hor]. }
+    assert (Hok' : cast_slot_ok s f (nth slot fs (VInt 0)) = true) by (destruct (fty f); exact Hok).
+    apply (field_rt_ext s G idx m (ref_slot (ref_encode g s)) _ (norm_slot 0 s) _ (zero_slot (length s) s) _ fs (slot, f)); cbn [fst snd];
+      [reflexivity|unfold norm_slot; rewrite Hc; reflexivity|reflexivity|].
+    apply (cast_rt s G idx m Hm Hnd (ref_encode g s) slot f fs Hin Hcc Hv Hor Hok').
 Qed.
 
 (* oneof members: typed values are a set member or the unset form, and unset members write nothing *)
@@ -750,6 +963,18 @@ Proof.
     destruct Hrp as [Hr Hp]. unfold msg_slot_ok in Hok. rewrite Hr in Hok. unfold msg_elem_ok in Hok. rewrite Hp in Hok.
     destruct v as [| | | |[[fs1 u1]|]|fs1 u1| | |]; try discriminate Hok; [discriminate Hns|].
     unfold ref_slot, norm_slot. rewrite Hc, Ht. cbn. repeat split. right; reflexivity.
+  - (* Timestamp member *)
+    assert (Hok' : cast_slot_ok s f v = true) by (destruct (fty f); exact Hok).
+    assert (Hr : i_repeated (field_info s f) = false) by (destruct Hs as [[E _]|[_ Hor]]; [congruence|apply Hor, Ho]).
+    unfold cast_slot_ok in Hok'. rewrite Hr, info_oneof in Hok'. destruct (foneof f); [|congruence]. cbn [orb] in Hok'. unfold cast_opt_ok in Hok'.
+    destruct v as [| |[x|]| | | | | |]; try discriminate Hok'; [discriminate Hns|].
+    unfold ref_slot, norm_slot. rewrite Hc. cbn. repeat split. left; reflexivity.
+  - (* Duration member *)
+    assert (Hok' : cast_slot_ok s f v = true) by (destruct (fty f); exact Hok).
+    assert (Hr : i_repeated (field_info s f) = false) by (destruct Hs as [[E _]|[_ Hor]]; [congruence|apply Hor, Ho]).
+    unfold cast_slot_ok in Hok'. rewrite Hr, info_oneof in Hok'. destruct (foneof f); [|congruence]. cbn [orb] in Hok'. unfold cast_opt_ok in Hok'.
+    destruct v as [| |[x|]| | | | | |]; try discriminate Hok'; [discriminate Hns|].
+    unfold ref_slot, norm_slot. rewrite Hc. cbn. repeat split. left; reflexivity.
 Qed.
 
 Lemma oneof_member_zero n f : supported s f -> foneof f <> None -> unset (zero_slot n s f).
